@@ -97,8 +97,11 @@ def screen(eng, tall=None):
     return W, H, y0, px, py
 
 
-def run_term(W, H, y0, px, py, pieces):
+def run_term(W, H, y0, px, py, pieces, preset_sgr=False):
     t = Term(term(W), term(H), 0, term(y0), probe=(term(px), term(py)))
+    if preset_sgr:
+        # text attributes left active by whatever the caller printed before
+        t.feed("\x1b[38;2;9;8;7m\x1b[48;2;1;2;3m")
     for p in pieces:
         t.feed(p)
     return t
